@@ -304,6 +304,14 @@ func (pl *Plan) Datagram(r *hx.Rng, p *Peer, refs []int64) Dgram {
 		d.Result = true
 		d.Fct = int64(r.Pick(6, 2, 1, 1))
 		d.Err = int64(r.Pick(2, 1, 1, 1)) * int64(r.Range(1, 3))
+		if r.Chance(1, 4) {
+			// classifier result, but the cmd carries a function's data instead of resultData
+			d.ResultPl = true
+			d.Pl = Payload{Kind: 0, Fn: pickFn(r, lf, rf), V: int64(r.Range(1, 900))}
+			if lf == &NMLocal {
+				d.Pl = Payload{Kind: 2, V: int64(r.Range(1, 900))}
+			}
+		}
 		if d.Ref == 0 && len(refs) > 0 && r.Chance(2, 3) {
 			d.Ref = refs[r.Intn(len(refs))] + 1
 		}
@@ -324,13 +332,24 @@ func (pl *Plan) Datagram(r *hx.Rng, p *Peer, refs []int64) Dgram {
 		}
 	}
 	d.Fct = int64(r.Pick(6, 2, 1, 1))
+	if r.Chance(1, 15) {
+		// a resultData element under another classifier than result
+		d.Pl = Payload{Kind: 10, V: int64(r.Intn(4))}
+		if len(refs) > 0 && r.Chance(1, 2) {
+			d.Ref = refs[r.Intn(len(refs))] + 1
+		}
+		return d
+	}
 	switch d.Pl.Kind {
 	case 0:
 		d.Pl.Fn = pickFn(r, lf, rf)
 		if d.Cls != 0 {
 			d.Pl.V = int64(r.Range(1, 900))
-		} else {
-			d.Sel = int64(r.Pick(3, 1, 1)) // plain read / restricted by selectors / by elements
+		}
+		if d.Cls == 0 || d.Cls == 3 {
+			// plain / read restricted by selectors or elements / write asking for a partial update (put on
+			// the wire only for the functions without partial support: rejected by the data model)
+			d.Sel = int64(r.Pick(3, 1, 1))
 		}
 	case 1:
 		if d.Cls == 2 {
@@ -441,6 +460,11 @@ func MatrixHistory(t, role int64, full bool) []hx.Zs {
 	for i, fn := range fns {
 		h = append(h, OpAddFunction(e, 1, fn, true, i%3 != 2), OpSetData(e, 1, fn, 100+fn))
 	}
+	if srvType != 4 && srvType != 7 {
+		// the foreign function is announced as writable although the factory has no data for it:
+		// an admitted write of it is rejected by the data model ("data not found")
+		h = append(h, OpAddFunction(e, 1, 27, true, true))
+	}
 	peers := []*Peer{{Ski: 1}, {Ski: 2}}
 	for _, p := range peers {
 		p.Feats = []RFeat{{Ent: e, Id: 1, Type: srvType, Role: 0}, {Ent: e, Id: 2, Type: srvType, Role: 1}, {Ent: e, Id: 3, Type: 4, Role: 2}}
@@ -476,6 +500,7 @@ func MatrixHistory(t, role int64, full bool) []hx.Zs {
 			pays = append(pays, Payload{Kind: 0, Fn: foreign})
 		}
 	}
+	pays = append(pays, Payload{Kind: 10}) // a resultData element under every classifier
 	n := 0
 	for _, pl := range pays {
 		for cls := int64(0); cls <= 5; cls++ {
@@ -487,8 +512,8 @@ func MatrixHistory(t, role int64, full bool) []hx.Zs {
 							// the function element (absent / the data's / empty / another) and, for reads of data
 							// functions, the restriction (none / selectors / elements) cycle through the cells
 							d := Dgram{Ctr: p.Next(), Ack: ack == 1, AckFalse: ack == 2, Cls: cls, Pl: pl, Fct: int64(n % 4)}
-							if cls == 0 && pl.Kind == 0 {
-								d.Sel = int64(n/4) % 3
+							if (cls == 0 || cls == 3) && pl.Kind == 0 {
+								d.Sel = int64(n/4) % 3 // on writes: a partial update, effective for functions without partial support
 							}
 							d.Src = p.Addr(p.Feats[0], n%3 != 0)
 							if t == 5 && n%4 < 2 {
@@ -504,6 +529,21 @@ func MatrixHistory(t, role int64, full bool) []hx.Zs {
 							if cls == 5 {
 								d.Result = true
 								d.Err = int64(n % 3)
+								d.Ref = int64(n%2) * 4
+								if pl.Kind != 10 && n%4 >= 2 {
+									// classifier result whose cmd is the payload of this cell instead of resultData
+									d.ResultPl = true
+									switch pl.Kind {
+									case 0, 2:
+										d.Pl.V = int64(200 + n%700)
+									case 1:
+										d.Pl.Msg = DiscMsg{Dev: p.Dev()}
+									case 3, 4, 5, 6:
+										d.Pl.Call = call(p)
+									}
+								}
+							} else if pl.Kind == 10 {
+								d.Pl.V = int64(n % 3)
 								d.Ref = int64(n%2) * 4
 							} else {
 								switch pl.Kind {
